@@ -332,3 +332,57 @@ Proof.
   split; vm_compute; reflexivity.
 Qed.
 Print Assumptions C09_nonvacuous_singleton.
+
+(* ---- terminal extensions, FULL (closes the inclusion-only clause of C09_recompress_nodes_partial) ---------------- *)
+(* Every result node's extension byte is EXACTLY the byte of its node path in the restricted input graph: the left
+   extensions of the first node of the path and the right extensions of the last one, each read in the orientation in
+   which the node is traversed (complemented when flipped) - nothing is lost, nothing invented: [exts_exact], the Prop
+   decided by chk.c09.exts.  Consequently the final fix_exts(None) of compress_graph is the IDENTITY on the graph
+   assembled by build_node (C09_final_fix_exts_identity; formerly an observation from the mutation run).
+   Proof idea: an extension of an end node a of a path, through its exterior side, resolves in the restricted graph to a
+   surviving node y entered through side t (walk invariant).  If (y, t) were glued to a neighbour inside y's path, the
+   sole mutual link there would - by symmetry and uniqueness of y's extension on side t - lead back to a through a's
+   exterior side, which is impossible in a path without repeated node.  So (y, t) is an exterior end of its path, the
+   extended k-mer is (up to strand) a terminal k-mer of a result node (end k-mers of a spelled path: C03_path_spelling),
+   and find_link of the result graph finds it. *)
+From DBG Require Import Proofs.RecompExts.
+
+Theorem C09_recompress_exts : forall D reduce join K stranded, (forall a b, join a b = join b a) ->
+  forall (g : graph D) censor out paths,
+  rvalid D K stranded g -> compress_graph_paths D reduce join K stranded g censor = Some (out, paths) ->
+  exts_exact D K stranded g censor out.
+Proof. exact recompress_exts_exact. Qed.
+Print Assumptions C09_recompress_exts.
+
+(* the same, node by node along the node paths the model records *)
+Theorem C09_recompress_node_exts : forall D reduce join K stranded, (forall a b, join a b = join b a) ->
+  forall (g : graph D) censor out paths,
+  rvalid D K stranded g -> compress_graph_paths D reduce join K stranded g censor = Some (out, paths) ->
+  exists g1, restrict D K stranded g (survivors D g censor) = Some g1 /\
+    Forall2 (fun n p => sequence_of_path D K g1 p = Some (n_seq D n) /\ path_exts D g1 p = Some (n_exts D n)) out paths.
+Proof. exact recompress_node_exts. Qed.
+Print Assumptions C09_recompress_node_exts.
+
+Theorem C09_final_fix_exts_identity : forall D reduce join K stranded, (forall a b, join a b = join b a) ->
+  forall (g : graph D) censor g1 r,
+  rvalid D K stranded g ->
+  fix_exts D K stranded g (Some (initial_avail (length g) censor)) = Some g1 ->
+  rb_loop D reduce join K stranded g1 (seq 0 (length g)) (initial_avail (length g) censor) = Some r ->
+  fix_exts D K stranded (map fst r) None = Some (map fst r).
+Proof. exact final_fix_exts_identity. Qed.
+Print Assumptions C09_final_fix_exts_identity.
+
+(* non-vacuity: in the example above the merged node ATGACCAT (path node 0 forward, node 3 flipped) gets the left
+   extensions of node 0 and the complemented left extensions of node 3 - both empty after the restriction -, and CCCC keeps
+   exactly the extensions that still resolve *)
+Example C09_nonvacuous_exts :
+  exts_exact rpay 4 false ex_g (Some [4; 6]%nat)
+    [ ([0;3;2;0;1;1;0;3], 0, (1,[0;3])); ([1;1;3;3;2;1;1;0;0;3;0;0;3], 128, (0,[1])); ([1;1;1;1], 38, (0,[2]));
+      ([0;0;3;3], 8, (0,[5])); ([2;1;1;1], 32, (0,[7])) ].
+Proof.
+  eapply (C09_recompress_exts rpay rpay_reduce (rpay_join 0) 4 false).
+  - intros a b. unfold rpay_join. reflexivity.
+  - exact (proj1 C09_nonvacuous).
+  - exact (proj2 C09_nonvacuous).
+Qed.
+Print Assumptions C09_nonvacuous_exts.
